@@ -34,7 +34,7 @@ ASSUMPTIONS = [
 MUST_REACH = {
     "roundtrips": 400, "templates_covered": 481, "zerocoded": 20, "with_acks": 20, "with_extra": 20,
     "fill_cases": 50, "fill_mixed_marks_in_one_list": 10, "failed_serializations_before_good_ones": 30, "serialized_twice": 100, "fill_unset_fixed": 1, "fill_unset_variable": 1, "omitted_trailing": 5, "count_255": 1, "count_0": 5,
-    "ref_bytes_equal": 400,
+    "ref_bytes_equal": 400, "header_edits_on_received": 100, "header_edits_on_zerocoded": 10, "header_edits_after_body_parse": 10,
 }
 
 _ser = UDPMessageSerializer()
@@ -50,6 +50,8 @@ ZERO_BY_TYPE = {
 def _is_zero_value(var, val) -> bool:
     t = var.type
     if t in (MsgType.MVT_FIXED,):
+        if not isinstance(val, (bytes, bytearray)):
+            return False        # a Fixed field reads back as bytes (or a bytes subclass), never as anything else
         return bytes(val) == b"\x00" * var.size
     if t == MsgType.MVT_VARIABLE:
         return val == b"" or val == ""
@@ -208,6 +210,101 @@ def check_spec(ctx, spec):
         ctx.count("fill_cases")
         for t in _unset_types(tmpl, spec):
             ctx.count("fill_unset_" + ("fixed" if t == "MVT_FIXED" else "variable" if t == "MVT_VARIABLE" else "other"))
+    elif ctx.counters.get("roundtrips", 0) % 3 == 0:
+        check_header_edit_on_received(ctx, tmpl, spec, msg, data)
+
+
+_lazy_deser = UDPMessageDeserializer()      # default settings: bodies are parsed on first access
+
+HEADER_EDITS = ("extra", "extra_zeros", "extra_clear", "zerocoded_toggle", "acks", "acks_clear", "packet_id", "reliable_toggle",
+                "two_edits")
+
+
+def check_header_edit_on_received(ctx, tmpl, spec, msg, data):
+    """A message that came from the wire (body not looked at yet) is a message like any other: with its flags / id / acks /
+    extra header bytes changed it must still encode to a datagram that decodes to that message."""
+    import copy as _copy
+    n = ctx.counters.get("header_edits_on_received", 0)
+    edit = HEADER_EDITS[n % len(HEADER_EDITS)]
+    if edit in ("zerocoded_toggle", "two_edits") and not (spec["flags"] & 0x80) and gen_msg.approx_body_size(spec) > 0x2800:
+        edit = "extra"      # too big to be zero-coded at all (the decoder's expansion cap, C03's subject)
+    try:
+        recv = _lazy_deser.deserialize(data)
+    except Exception as e:
+        ctx.violation("deserialize-raises", "decoding the encoder's own datagram raised", {"spec": spec, "exc": repr(e)})
+        return
+    want = _copy.deepcopy(spec)
+    if n % 5 == 4:
+        recv.blocks     # body looked at before the edit
+        ctx.count("header_edits_after_body_parse")
+
+    def apply(e):
+        if e == "extra":
+            want["extra"] = bytes([1 + (n % 250), 0, 7, 0, 0][: 1 + n % 5])
+            recv.extra = want["extra"]
+        elif e == "extra_zeros":
+            want["extra"] = b"\x00" * (1 + n % 4)
+            recv.extra = want["extra"]
+        elif e == "extra_clear":
+            want["extra"] = b""
+            recv.extra = b""
+        elif e == "zerocoded_toggle":
+            want["flags"] ^= 0x80
+            recv.send_flags = int(recv.send_flags) ^ 0x80
+        elif e == "acks":
+            want["acks"] = [5, 2 ** 32 - 1, n % 1000][: 1 + n % 3]
+            want["flags"] |= 0x10
+            recv.acks = tuple(want["acks"])
+            recv.send_flags = int(recv.send_flags) | 0x10
+        elif e == "acks_clear":
+            want["acks"] = []
+            want["flags"] &= ~0x10
+            recv.acks = ()
+            recv.send_flags = int(recv.send_flags) & ~0x10
+        elif e == "packet_id":
+            want["packet_id"] = (spec["packet_id"] + 1 + n) % 2 ** 32
+            recv.packet_id = want["packet_id"]
+        elif e == "reliable_toggle":
+            want["flags"] ^= 0x40
+            recv.send_flags = int(recv.send_flags) ^ 0x40
+    try:
+        if edit == "two_edits":
+            apply("zerocoded_toggle")
+            apply("extra")
+        else:
+            apply(edit)
+        out = bytes(_ser.serialize(recv))
+    except Exception as e:
+        ctx.violation("received-header-edit:" + edit + ":raises", "changing a header field of a received message and encoding it raised",
+                      {"spec": spec, "edit": edit, "exc": repr(e)[:300]})
+        return
+    ctx.count("header_edits_on_received")
+    ctx.cover("header_edits", edit)
+    if spec["flags"] & 0x80:
+        ctx.count("header_edits_on_zerocoded")
+    try:
+        back = _deser.deserialize(out)
+        problems = []
+        if back.name != spec["name"]:
+            problems.append(("name", back.name))
+        if int(back.send_flags) != want["flags"]:
+            problems.append(("flags", int(back.send_flags)))
+        if back.packet_id != want["packet_id"]:
+            problems.append(("packet_id", back.packet_id))
+        if list(back.acks) != (list(want["acks"]) if want["flags"] & 0x10 else []):
+            problems.append(("acks", list(back.acks)))
+        if bytes(back.extra) != bytes(want["extra"]):
+            problems.append(("extra", bytes(back.extra)))
+        if back.to_dict() != msg.to_dict():
+            problems.append(("body", _first_body_diff(msg, back)))
+    except Exception as e:
+        problems = [("decode-raises", repr(e)[:300])]
+    if not problems and out != wire.ref_encode(tmpl, want):
+        problems = [("bytes", out[:200])]
+    if problems:
+        ctx.violation("received-header-edit:" + edit + ":" + ",".join(sorted({p[0] for p in problems})),
+                      "a received message whose header fields were changed did not encode to a datagram carrying that message",
+                      {"spec": spec, "edit": edit, "problems": problems, "datagram": out[:300]})
 
 
 def _unset_types(tmpl, spec):
